@@ -491,36 +491,81 @@ theorem allHex_flatten (toks : List (List Char)) (h : ∀ t ∈ toks, AllHex t) 
   obtain ⟨t, ht, hc⟩ := hc
   exact h t ht c hc
 
-theorem actisense_rt (prio dst src pgn : Nat) (data : Bytes) (hp : prio < 16) (hd : dst < 256)
-    (hs : src < 256) (hg : pgn < 2^24) (hl : 1 ≤ data.length) (hb : ∀ b ∈ data, b < 256) :
-    decodeActisense ("A000001.000 ".toList ++ encodeActisense prio dst src pgn data) =
+theorem ss_go_join_sp (toks : List (List Char)) (h : ∀ t ∈ toks, ' ' ∉ t ∧ t ≠ []) (hn : toks ≠ [])
+    (acc : List (List Char)) : splitSpaces.go [] acc (joinSep ' ' toks ++ [' ']) = acc.reverse ++ toks := by
+  induction toks generalizing acc with
+  | nil => exact absurd rfl hn
+  | cons t ts ih =>
+    cases ts with
+    | nil =>
+      simp only [joinSep]
+      rw [ss_go_sep t (h t (by simp)).1 (h t (by simp)).2]
+      simp [splitSpaces.go]
+    | cons t' ts =>
+      simp only [joinSep, List.append_assoc, List.cons_append]
+      rw [ss_go_sep t (h t (by simp)).1 (h t (by simp)).2, ih (fun x hx => h x (by simp [hx])) (by simp)]
+      simp
+
+/-- a trailing space (an empty last token) is dropped -/
+theorem splitSpaces_line_sp (toks : List (List Char)) (h : ∀ t ∈ toks, Tok t) (hn : toks ≠ []) :
+    splitSpaces (joinSep ' ' toks ++ [' ']) = toks := by
+  unfold splitSpaces
+  rw [ss_go_join_sp toks h hn]; rfl
+
+/-- what `decodeActisenseToks` does on the encoder's tokens -/
+theorem decodeActisenseToks_enc (prio dst src pgn : Nat) (data : Bytes) (hp : prio < 16) (hd : dst < 256)
+    (hs : src < 256) (hg : pgn < 2^24) (hb : ∀ b ∈ data, b < 256) :
+    decodeActisenseToks ['0','0','0','0','0','1','.','0','0','0'] (toHex 5 (src * 4096 + dst * 16 + prio))
+        (toHex 5 pgn) (data.map byteHex).flatten =
       .ok { pgn := pgn, prio := prio, src := src, dst := dst, data := data } := by
-  have e : "A000001.000 ".toList ++ encodeActisense prio dst src pgn data =
-      joinSep ' ' [actStamp, toHex 5 (src * 4096 + dst * 16 + prio), toHex 5 pgn, (data.map byteHex).flatten] := by
-    rw [actStamp_eq]
-    simp only [encodeActisense, joinSep, Nat.mod_eq_of_lt hp, Nat.mod_eq_of_lt hd, Nat.mod_eq_of_lt hs,
-      Nat.mod_eq_of_lt (show pgn < 16777216 from hg), List.append_assoc, List.cons_append, List.nil_append]
-  have hdat : Tok (data.map byteHex).flatten := by
-    refine allHex_tok (allHex_flatten _ ?_) ?_
-    · intro t ht; simp only [List.mem_map] at ht; obtain ⟨b, _, rfl⟩ := ht; exact allHex_byteHex b
-    · cases data with
-      | nil => simp at hl
-      | cons b bs => simp [byteHex]
-  rw [e, decodeActisense, splitSpaces_line _ (by
-    intro t ht
-    simp only [List.mem_cons, List.not_mem_nil, or_false] at ht
-    rcases ht with rfl | rfl | rfl | rfl
-    · exact ⟨by decide, by decide⟩
-    · exact allHex_tok (allHex_toHex _ _) (toHex_ne_nil _ _)
-    · exact allHex_tok (allHex_toHex _ _) (toHex_ne_nil _ _)
-    · exact hdat) (by simp)]
   have h1 : splitOn '.' ['0','0','0','0','0','1','.','0','0','0'] = [['0','0','0','0','0','1'], ['0','0','0']] := by decide
   have h2 : parseDec ['0','0','0','0','0','1'] = some 1 := by decide
   have h3 : parseDec ['0','0','0'] = some 0 := by decide
-  simp only [actStamp, h1, h2, h3, parseHex_toHex 5 _ (show src * 4096 + dst * 16 + prio < 16^64 by omega),
+  simp only [decodeActisenseToks, h1, h2, h3, parseHex_toHex 5 _ (show src * 4096 + dst * 16 + prio < 16^64 by omega),
     parseHex_toHex 5 pgn (show pgn < 16^64 by omega), pairs_byteHex, Option.bind_some, allSome_byteHex data hb]
   simp
   omega
+
+theorem actisense_rt (prio dst src pgn : Nat) (data : Bytes) (hp : prio < 16) (hd : dst < 256)
+    (hs : src < 256) (hg : pgn < 2^24) (hb : ∀ b ∈ data, b < 256) :
+    decodeActisense ("A000001.000 ".toList ++ encodeActisense prio dst src pgn data) =
+      .ok { pgn := pgn, prio := prio, src := src, dst := dst, data := data } := by
+  have htok : ∀ t ∈ [actStamp, toHex 5 (src * 4096 + dst * 16 + prio), toHex 5 pgn], Tok t := by
+    intro t ht
+    simp only [List.mem_cons, List.not_mem_nil, or_false] at ht
+    rcases ht with rfl | rfl | rfl
+    · exact ⟨by decide, by decide⟩
+    · exact allHex_tok (allHex_toHex _ _) (toHex_ne_nil _ _)
+    · exact allHex_tok (allHex_toHex _ _) (toHex_ne_nil _ _)
+  cases data with
+  | nil =>
+    -- empty payload: the line ends with a space, the data token is missing
+    have e : "A000001.000 ".toList ++ encodeActisense prio dst src pgn [] =
+        joinSep ' ' [actStamp, toHex 5 (src * 4096 + dst * 16 + prio), toHex 5 pgn] ++ [' '] := by
+      rw [actStamp_eq]
+      simp only [encodeActisense, joinSep, Nat.mod_eq_of_lt hp, Nat.mod_eq_of_lt hd, Nat.mod_eq_of_lt hs,
+        Nat.mod_eq_of_lt (show pgn < 16777216 from hg), List.append_assoc, List.cons_append, List.nil_append,
+        List.map_nil, List.flatten_nil, List.append_nil]
+    rw [e, decodeActisense, splitSpaces_line_sp _ htok (by simp)]
+    exact decodeActisenseToks_enc prio dst src pgn [] hp hd hs hg hb
+  | cons b bs =>
+    have e : "A000001.000 ".toList ++ encodeActisense prio dst src pgn (b :: bs) =
+        joinSep ' ' [actStamp, toHex 5 (src * 4096 + dst * 16 + prio), toHex 5 pgn, ((b :: bs).map byteHex).flatten] := by
+      rw [actStamp_eq]
+      simp only [encodeActisense, joinSep, Nat.mod_eq_of_lt hp, Nat.mod_eq_of_lt hd, Nat.mod_eq_of_lt hs,
+        Nat.mod_eq_of_lt (show pgn < 16777216 from hg), List.append_assoc, List.cons_append, List.nil_append]
+    have hdat : Tok ((b :: bs).map byteHex).flatten := by
+      refine allHex_tok (allHex_flatten _ ?_) (by simp [byteHex])
+      intro t ht; simp only [List.mem_map] at ht; obtain ⟨b, _, rfl⟩ := ht; exact allHex_byteHex b
+    rw [e, decodeActisense, splitSpaces_line _ (by
+      intro t ht
+      simp only [List.mem_cons, List.not_mem_nil, or_false] at ht
+      rcases ht with rfl | rfl | rfl | rfl
+      · exact htok _ (by simp)
+      · exact htok _ (by simp)
+      · exact htok _ (by simp)
+      · exact hdat) (by simp)]
+    exact decodeActisenseToks_enc prio dst src pgn (b :: bs) hp hd hs hg hb
 
 
 
